@@ -98,7 +98,35 @@ func (rv *revalidator) establishedAt(x ssa.Instruction, f lockedFact, depth int)
 	reqs := rv.reqs(f, depth)
 	isX := func(i ssa.Instruction) bool { return i == x }
 	if miss, reached := pathsMissingEntry(fn, isX, nil, reqs); reached > 0 && len(miss) > 0 {
-		return false, "from the function's entry"
+		// a private helper that is entered with the lock held inherits the facts established at every one of
+		// its call sites (AddData tests, then calls a helper that allocates)
+		inherited := false
+		if depth <= 3 && c.la.entry[fn] != LU && c.la.entry[fn] != 0 {
+			if fn.Parent() == nil {
+				calls, escapes := c.p.callSitesOf(fn)
+				if len(escapes) == 0 && len(calls) > 0 {
+					inherited = true
+					for _, cs := range calls {
+						in, isIn := cs.(ssa.Instruction)
+						if !isIn || relPkg(cs.Parent()) != c.la.pkg {
+							inherited = false
+							break
+						}
+						if _, isCall := cs.(*ssa.Call); !isCall {
+							inherited = false
+							break
+						}
+						if good, _ := rv.establishedAt(in, f, depth+1); !good {
+							inherited = false
+							break
+						}
+					}
+				}
+			}
+		}
+		if !inherited {
+			return false, "from the function's entry"
+		}
 	}
 	bad := ""
 	allInstrs(fn, func(in ssa.Instruction) {
